@@ -26,7 +26,7 @@ Import ListNotations.
 From DD Require Import Base.PyStr Base.Value Diff.Tree Diff.DiffModel.
 From DD Require Import Options.OptModel Options.OptProofsBase Options.OptProofsTie Options.OptProofsAtoms
   Options.OptProofsKeys Options.OptProofsLists Options.OptProofsAlt Options.OptProofsSafe Options.OptProofsMono
-  Options.OptProofsRun Options.OptProofsWitness.
+  Options.OptProofsRun Options.OptProofsWitness Options.OptDtModel Options.OptProofsDt.
 
 (** ** The option-aware model under the default options IS Diff.DiffModel.diff *)
 Theorem C11_no_options_is_diff_model :
@@ -180,3 +180,27 @@ Theorem C11_no_new_raise_numeric_key_refuted :
   exists a, run cdef no_opts a a = Ok ([], []) /\ run cdef Fcase a a = Err EValue /\ run cdef Fstrty a a = Err EValue.
 Proof. exact no_new_raise_numeric_key_refuted. Qed.
 Print Assumptions C11_no_new_raise_numeric_key_refuted.
+
+(** ** truncate_datetime / default_timezone: atom level only (datetimes are not atoms of the structural model) *)
+Theorem C11_dt_same_instant_other_zone : forall dtz us1 o1 us2 o2,
+  (us1 - 60000000 * o1 = us2 - 60000000 * o2)%Z ->
+  dt_changed None dtz (mkDt us1 (Some o1)) (mkDt us2 (Some o2)) = false.
+Proof. exact dt_same_instant. Qed.
+Print Assumptions C11_dt_same_instant_other_zone.
+
+Theorem C11_dt_naive_is_default_zone : forall t dtz us,
+  dt_changed t dtz (mkDt us None) (mkDt us (Some dtz)) = false.
+Proof. exact dt_naive_is_default_zone. Qed.
+Print Assumptions C11_dt_naive_is_default_zone.
+
+Theorem C11_dt_truncate_same_bucket : forall u dtz us1 us2 o,
+  (us1 / unit_us u = us2 / unit_us u)%Z ->
+  dt_changed (Some u) dtz (mkDt us1 o) (mkDt us2 o) = false.
+Proof. exact dt_trunc_same_bucket. Qed.
+Print Assumptions C11_dt_truncate_same_bucket.
+
+Theorem C11_dt_truncate_before_zone_refuted :   (* monotonicity fails for truncate_datetime: one instant, two zones *)
+  exists a b, dt_instant None 0 a = dt_instant None 0 b /\
+              dt_changed None 0 a b = false /\ dt_changed (Some UHour) 0 a b = true.
+Proof. exact dt_trunc_before_tz_refuted. Qed.
+Print Assumptions C11_dt_truncate_before_zone_refuted.
